@@ -9,7 +9,8 @@ Definition err_eqb (a b : err) : bool :=
   match a, b with
   | EOob, EOob | ESize, ESize | EType, EType | EEnum, EEnum | ENotIter, ENotIter | ENoAttr, ENoAttr
   | EDflt, EDflt | EBadAppend, EBadAppend | EIndex, EIndex | ENoRef, ENoRef
-  | EUnpack, EUnpack | ENotSub, ENotSub | EBadRef, EBadRef | EAmbiguous, EAmbiguous | EShape, EShape => true
+  | EUnpack, EUnpack | ENotSub, ENotSub | EBadRef, EBadRef | EAmbiguous, EAmbiguous | EShape, EShape
+  | EOverflow, EOverflow => true
   | _, _ => false
   end.
 
